@@ -84,7 +84,7 @@ def ref_match(pattern, abspath, isdir):
 def pattern_forms():
     return ["k.cmake", "e1.cmake", "y", "x1/", "e*.cmake", "x*/", "*.cmake", "**/deep/", "deep", "ABSF:e2.cmake",
             "ABSF:x1/m.cmake", "ABSD:x2/", "ABSD:y/deep/", "m.cmake", "INPUT/", "in", "ANCESTOR/", "ABSGLOB:i*/k.cmake",
-            "ABSGLOB:*/x2/"]
+            "ABSGLOB:*/x2/", "in/", "i*/", "**/in/"]
 
 
 def resolve(p, boxroot):
@@ -100,7 +100,12 @@ def resolve(p, boxroot):
     return p
 
 
-def expected(tree, pats, boxroot, recursive):
+class Ambiguous(Exception):
+    """auto-exclusion on and a directory whose .cmake files are all excluded: the statements do not say whether such a
+    directory 'directly contains a .cmake file'; not judged"""
+
+
+def expected(tree, pats, boxroot, recursive, auto=False):
     base = os.path.join(boxroot, "work", "in")
 
     def excluded(rel, isdir):
@@ -113,9 +118,18 @@ def expected(tree, pats, boxroot, recursive):
     def visit(rel):
         ents = [(r, d) for r, d in tree.entries() if os.path.dirname(r) == (rel if rel != "." else "")]
         walk[rel] = sorted(os.path.basename(r) for r, d in ents if not d and dirmodel.is_cmake(r) and not excluded(r, False))
+        if auto and not walk[rel] and any(not d and r.endswith(".cmake") for r, d in ents):
+            raise Ambiguous(rel)
         if recursive:
             for r, d in ents:
                 if d and not excluded(r, True):
+                    if auto:
+                        sub = [(r2, d2) for r2, d2 in tree.entries() if os.path.dirname(r2) == r and not d2]
+                        kept = [r2 for r2, _ in sub if r2.endswith(".cmake") and not excluded(r2, False)]
+                        if not kept:
+                            if any(r2.endswith(".cmake") for r2, _ in sub):
+                                raise Ambiguous(r)
+                            continue        # no .cmake file at all: skipped together with its subtree
                     visit(r)
 
     visit(".")
@@ -142,7 +156,8 @@ def validate_matcher():
 
 
 def run_case(job):
-    files, dirs, pats, source, recursive, sched = job
+    files, dirs, pats, source, recursive, sched = job[:6]
+    auto = job[6] if len(job) > 6 else False
     tree = T(files, dirs)
     box = fsbox.Box("c15")
     msgs = []
@@ -153,7 +168,7 @@ def run_case(job):
         rp = [resolve(p, box.root) for p in pats]
         argv = ["-o", "out"] + (["-r"] if recursive else [])
         ucfg = None
-        y = "input:\n  auto_exclude_directories_without_cmake: false\n"
+        y = f"input:\n  auto_exclude_directories_without_cmake: {str(auto).lower()}\n"
         ylist = "  exclude_filters:\n" + "".join(f"    - '{p}'\n" for p in rp)
         if source.startswith("split"):
             # the patterns come from different sources in one run: the first from one, the rest from another
@@ -171,8 +186,11 @@ def run_case(job):
                          if parts.get("sfile") else ""))
         argv += ["-s", "s.yaml"]
         schedule = fsbox.Schedule(mode=sched[0], table=dict(sched[1]), root=box.path("work", "in")) if sched else None
+        try:
+            exp = expected(tree, rp, box.root, recursive, auto)
+        except Ambiguous:
+            return {"viol": [], "obs": None, "nt": None, "n": 0}
         r = box.run(argv + ["in"], schedule=schedule, user_config=ucfg)
-        exp = expected(tree, rp, box.root, recursive)
         outdir = box.path("work", "out")
         if r["status"] != 0:
             msgs.append(f"error: run failed: {r['exc'] or r['stdout'][-200:]}")
@@ -189,7 +207,7 @@ def run_case(job):
             total = len([1 for r_, d in tree.entries() if not d])
             nt = not msgs and 0 < sum(len(v) for v in exp.values()) < total
         if msgs:
-            msgs = [f"{m}   [patterns {pats} via {source}, recursive={recursive}, listing {sched}, files {files}, dirs {dirs}]"
+            msgs = [f"{m}   [patterns {pats} via {source}, recursive={recursive}, auto-exclusion={auto}, listing {sched}, files {files}, dirs {dirs}]"
                     for m in msgs]
     finally:
         box.cleanup()
@@ -230,6 +248,11 @@ def run(ctx):
         jobs.append((FILES, DIRS, ps, src, False, ("reversed", ())))
         for s2 in sources:
             jobs.append((FILES[:3], DIRS[:3], ps, s2, True, ("reversed", ())))
+    # auto-exclusion on (only where every directory keeps a non-excluded .cmake file or has none at all)
+    for ps in psets:
+        for sched in (None, ("reversed", ())):
+            jobs.append((FILES, DIRS, ps, "cli", True, sched, True))
+            jobs.append((FILES[:2], ["x1", "y"], ps, "sfile", True, sched, True))
     # two patterns supplied by two different sources in one run (the source must be irrelevant)
     two = [["k.cmake", "x1/"], ["e*.cmake", "y"], ["ABSF:e2.cmake", "x*/"], ["*.cmake", "**/deep/"], ["m.cmake", "e1.cmake"]]
     for ps in two:
@@ -239,13 +262,14 @@ def run(ctx):
     ctx.cov["bounds"] = {"pattern_forms": forms, "pattern_sets": len(psets), "max_siblings": hi, "runs": len(jobs),
                          "files": FILES, "dirs": DIRS}
     ctx.sweep(run_case, jobs, space="patterns x trees x listing permutations", selftest=5)
-    ctx.assumptions += ["auto-exclusion is off in this check (its interplay with patterns is explored by C14's closure invariant)",
+    ctx.assumptions += ["auto-exclusion is off in most runs; with auto-exclusion on, cases in which a directory's .cmake files are all "
+                        "excluded are not judged (the statements leave open whether such a directory contains a .cmake file)",
                         "pattern names do not collide with components of the sandbox's absolute path"]
     return RULE
 
 
 def replay(case):
-    files, dirs, pats, source, recursive, sched = case
+    files, dirs, pats, source, recursive, sched = case[:6]
     if sched:
         sched = (sched[0], tuple((k, v) for k, v in sched[1]))
-    return run_case((files, dirs, pats, source, recursive, sched))["viol"]
+    return run_case((files, dirs, pats, source, recursive, sched) + tuple(case[6:]))["viol"]
